@@ -185,6 +185,16 @@ def check_registry(run, tree):
                 r = ev.invoke(call, [inst, sym], {}, None)
                 if not (isinstance(r, tuple) and r[:2] == ("parsed-by", id(reg2)) and r[2] == sym):
                     mangled.append("units(%r) is parsed as %r" % (sym, r[2] if isinstance(r, tuple) and len(r) > 2 else r))
+            # a name defined by the configuration may not take the spelling of an existing prefixed unit (pint resolves an exact alias first:
+            # "mH" defined as a mass silently stops meaning millihenry)
+            PREFIX = ("y", "z", "a", "f", "p", "n", "u", "µ", "m", "c", "d", "da", "h", "k", "M", "G", "T", "P", "E", "Z", "Y", "")
+            BASE = ("m", "g", "s", "A", "K", "mol", "cd", "rad", "sr", "Hz", "N", "Pa", "J", "W", "C", "V", "F", "ohm", "Ω", "S", "Wb", "T", "H", "lm", "lx", "Bq", "Gy", "Sv",
+                    "L", "l", "eV", "b", "bar", "pc", "au", "yr", "a", "G", "erg", "dyn", "P", "St", "Gal", "Mx", "Oe", "Ba", "t", "Da", "u", "min", "h", "d", "ly", "atm", "cal", "K")
+            taken = {p_ + b_ for p_ in PREFIX for b_ in BASE}
+            shadow = sorted(sym for sym in symbols if sym in taken)
+            run.ob("units/units.py::defined-symbols-do-not-shadow-units", not shadow, cc.where(), ("defined symbols that are also prefixed units: %s" % shadow) if shadow else
+                   "%d defined names and symbols, none spelled like an SI-prefixed unit of the registry's default table" % len(symbols),
+                   "a unit string written by the user (mH = millihenry) now denotes the new constant: comparisons between compatible quantities raise and incompatible ones return an answer")
             run.ob("units/units.py::Units.__call__[defined symbols]", bool(symbols) and not mangled, call.where(),
                    "; ".join(mangled[:3]) or "%d defined names and symbols (M_sun, L_bol0, ar, ...) reach the parser as written" % len(symbols),
                    "a unit the package defines cannot be used under its own symbol (e.g. L_bol0 rewritten to L_bol**0 by an exponent preprocessor)")
